@@ -35,17 +35,25 @@ structure PState where
   idx : Nat
   deriving Repr, Inhabited
 
-/-- one `while let Some(specifier) = seen_pending.next_pending()` iteration -/
+/-- visiting the entry stored under `s`, if there is one -/
+def visitEntry (p : PState) (s : Spec) : PState :=
+  match p.slots.lookup s with
+  | some sl =>
+    { slots := upsert p.slots s (pruneSlot sl),
+      seen := (slotTargets sl).foldl addSeen p.seen,
+      idx := p.idx + 1 }
+  | none => { p with idx := p.idx + 1 }
+
+/-- one `while let Some(specifier) = seen_pending.next_pending()` iteration.  A redirect entry of
+`s` puts its target on the worklist; the entry stored under `s` is visited as well (since the
+repair of finding F36 — regenerated table `pruneVisitsEntryOnSource`; before, the loop went on to
+the next specifier right after following the redirect). -/
 def pruneIter (redirects : List (Spec × Spec)) (p : PState) (s : Spec) : PState :=
   match redirects.lookup s with
-  | some t => { p with seen := addSeen p.seen t, idx := p.idx + 1 }
-  | none =>
-    match p.slots.lookup s with
-    | some sl =>
-      { slots := upsert p.slots s (pruneSlot sl),
-        seen := (slotTargets sl).foldl addSeen p.seen,
-        idx := p.idx + 1 }
-    | none => { p with idx := p.idx + 1 }
+  | some t =>
+    if pruneVisitsEntryOnSource then visitEntry { p with seen := addSeen p.seen t } s
+    else { p with seen := addSeen p.seen t, idx := p.idx + 1 }
+  | none => visitEntry p s
 
 def pruneLoop (redirects : List (Spec × Spec)) : Nat → PState → PState
   | 0, p => p
